@@ -402,6 +402,13 @@ func (e *Engine) split(s, sep *T, n int) Value {
 	if n == 0 {
 		return (*SliceVal)(nil)
 	}
+	if pieces, ok := syntacticSplit(s, csep); ok && (n < 0 || len(pieces) <= n) {
+		vals := make([]Value, len(pieces))
+		for i, p := range pieces {
+			vals[i] = p
+		}
+		return e.mkSlice(types.Typ[types.String], vals)
+	}
 	maxParts := e.splitBound
 	if n > 0 && n < maxParts {
 		maxParts = n
@@ -487,6 +494,20 @@ func (e *Engine) fmtArg(verb byte, iv *IfaceVal) *T {
 	if iv == nil {
 		return StrConst("<nil>")
 	}
+	if iv.T != nil && (verb == 's' || verb == 'v' || verb == 'q') {
+		// fmt uses Error() / String() when the operand implements error / Stringer
+		for _, mname := range []string{"Error", "String"} {
+			if sel := e.sh.prog.MethodSets.MethodSet(iv.T).Lookup(nil, mname); sel != nil {
+				if sig, ok := sel.Type().(*types.Signature); ok && sig.Params().Len() == 0 && sig.Results().Len() == 1 && isStringType(sig.Results().At(0).Type()) {
+					if m := e.sh.prog.MethodValue(sel); m != nil {
+						if r, ok := e.call(m, []Value{iv.V}).(*T); ok && r.Sort.K == SStr {
+							return r
+						}
+					}
+				}
+			}
+		}
+	}
 	switch v := iv.V.(type) {
 	case *T:
 		switch v.Sort.K {
@@ -543,4 +564,53 @@ func (e *Engine) hexUF(v *T, upper bool) *T {
 		Eq(mk("str.len", IntS, h), IntMul(IntConst(2), StrLen(v))),
 	))
 	return h
+}
+
+// sepFree: the term can never contain the single-byte separator.
+func sepFree(t *T, sep byte) bool {
+	if t.IsConst() {
+		return !strings.Contains(t.Str, string(sep))
+	}
+	if t.Op == "uf" && t.Name == "dec" {
+		return sep < '0' || sep > '9'
+	}
+	if t.Op == "uf" && (t.Name == "hexenc" || t.Name == "hexencU") {
+		return !(sep >= '0' && sep <= '9' || sep >= 'a' && sep <= 'f' || sep >= 'A' && sep <= 'F')
+	}
+	if t.Op == "ite" {
+		return sepFree(t.Args[1], sep) && sepFree(t.Args[2], sep)
+	}
+	return false
+}
+
+// syntacticSplit splits a concatenation whose symbolic pieces are known to be separator-free.
+func syntacticSplit(s *T, sep string) ([]*T, bool) {
+	if len(sep) != 1 {
+		return nil, false
+	}
+	parts := []*T{s}
+	if s.Op == "str.++" {
+		parts = s.Args
+	}
+	var out []*T
+	cur := []*T{}
+	for _, p := range parts {
+		if p.IsConst() {
+			segs := strings.Split(p.Str, sep)
+			for i, sg := range segs {
+				if i > 0 {
+					out = append(out, Concat(cur...))
+					cur = []*T{}
+				}
+				cur = append(cur, StrConst(sg))
+			}
+			continue
+		}
+		if !sepFree(p, sep[0]) {
+			return nil, false
+		}
+		cur = append(cur, p)
+	}
+	out = append(out, Concat(cur...))
+	return out, true
 }
